@@ -169,7 +169,9 @@ def run_check(ctx):
         def on_reject(ev, idx, block):
             sig, what = _sig(ev, block)
             run = _block_info(block)
+            known = any(v[0] == sig for v in ctx.violations) or sig in ctx.known_hits
             ctx.violation(sig, what, dict(kind="block", run=run, event=ev, block=block[:60]))
+            return "dup" if known else None
         trace.check_trace(ctx, "TraceCv", "Trace_Cv.cfg", "Trace_Cv_prop.cfg", events, on_reject, drop="block", max_rounds=40, label="trace_cv", xmx="8g")
         ctx.traces(nblocks)
 
